@@ -193,8 +193,10 @@ def analyze(template: BoundTemplate, *, include_partials: bool) -> TemplateAnaly
             )
 
             # If we've seen this partial before but with different arguments,
-            # we might want to visit it again but only capture globals.
-            _just_globals = partial_name in seen
+            # we might want to visit it again but only capture globals. A partial
+            # that has only been reached by a globals-only pass so far has not
+            # had its variables, filters and tags recorded yet.
+            _just_globals = just_globals or None in seen[partial_name]
 
             partial_key = partial.key
             if partial.scope != PartialScope.ISOLATED:
@@ -208,12 +210,14 @@ def analyze(template: BoundTemplate, *, include_partials: bool) -> TemplateAnaly
                     )
                 )
 
-            if partial_key in seen[partial_name]:
+            if _just_globals and partial_key in seen[partial_name]:
                 # We've visited this partial template before with the same
                 # arguments.
                 return
 
             seen[partial_name].add(partial_key)
+            if not _just_globals:
+                seen[partial_name].add(None)
             partial_name = partial_name or template_name
 
             partial_scope = (
@@ -229,7 +233,7 @@ def analyze(template: BoundTemplate, *, include_partials: bool) -> TemplateAnaly
                     child,
                     partial_name,
                     partial_scope,
-                    just_globals=just_globals or _just_globals,
+                    just_globals=_just_globals,
                 )
 
             partial_scope.pop()
@@ -328,8 +332,10 @@ async def analyze_async(
             )
 
             # If we've seen this partial before but with different arguments,
-            # we might want to visit it again but only capture globals.
-            _just_globals = partial_name in seen
+            # we might want to visit it again but only capture globals. A partial
+            # that has only been reached by a globals-only pass so far has not
+            # had its variables, filters and tags recorded yet.
+            _just_globals = just_globals or None in seen[partial_name]
 
             partial_key = partial.key
             if partial.scope != PartialScope.ISOLATED:
@@ -343,12 +349,14 @@ async def analyze_async(
                     )
                 )
 
-            if partial_key in seen[partial_name]:
+            if _just_globals and partial_key in seen[partial_name]:
                 # We've visited this partial template before with the same
                 # arguments.
                 return
 
             seen[partial_name].add(partial_key)
+            if not _just_globals:
+                seen[partial_name].add(None)
             partial_name = partial_name or template_name
 
             partial_scope = (
@@ -364,7 +372,7 @@ async def analyze_async(
                     child,
                     partial_name,
                     partial_scope,
-                    just_globals=just_globals or _just_globals,
+                    just_globals=_just_globals,
                 )
 
             partial_scope.pop()
